@@ -32,20 +32,28 @@ PROP = {
         'parse_render_logical / precedence_whole_filter (character level) are stated over ABSTRACT atoms: each '
         'atom is assumed to satisfy GoodAtom (comparisonL reads exactly its text to its Bool node before every '
         'continuation it stops at - end of input, space, `)`, optionally `&|^` -, the text is not taken for '
-        'a unary operator or quantifier call, the node is not Combining). GoodAtom is PROVED '
+        'a unary operator (in the sense of LogicalExpr::lex_unary_op = lexUnary: a registered name that merely '
+        'begins with `not` is not taken for one) or quantifier call, the node is not Combining). GoodAtom is PROVED '
         '(Props/C01Atoms.lean: goodAtom_boolField / goodAtom_intCmp / goodAtom_bytesCmp / goodAtom_rawCmp / '
         'goodAtom_ipCmp / goodAtom_ip6Cmp / goodAtom_concrete) for the concrete atoms of Lemmas/Atoms.lean: a '
         'bare Bool field, or `field ws1 op ws2 literal` with any of the six ordering operators in either '
         'spelling, any layout on both sides, and a literal that is an integer (dec/0x hex/0 octal), a quoted '
         'byte string (any escape per byte), a raw string, an IPv4 dotted quad or an IPv6 address (full or std '
-        'Display form); decidable side conditions CAtom.ok: the name is a dotted identifier not starting with '
-        '`not` (bare Bool fields: also not exactly any/all), the scheme has a field of that name and of the '
+        'Display form); decidable side conditions CAtom.ok: the name is a dotted identifier other than the bare '
+        'word `not` (names that BEGIN with `not` are covered since lex_unary_op reads a registered name as the '
+        'identifier; the former hypothesis "does not start with `not`" is removed; bare Bool fields: also not '
+        'exactly any/all), the scheme has a field of that name and of the '
         'literal\'s type, a word spelling is separated from the name by >= 1 space, the literal is in range. '
         'Atoms with other operators (in {..}, in $list, contains, matches, wildcard, &), with index suffixes '
         '[..], with function calls, quantifiers, hex-pair byte literals a1:b2 and CIDR/short addresses are NOT '
         'covered by the concrete theorem (abstract GoodAtom + differential run). Renderings are exactly those '
         'of Lemmas/Render/Defs.lean (any alias, any layout, a space mandatory only between an atom and the next '
-        'combining operator).',
+        'combining operator; the word `not` may be glued to its operand exactly where glueOk env holds: layout '
+        'follows, or the operand starts with no name character, or the maximal run of name characters starting '
+        'at the `n` is not a registered name - vacuous for schemes without names beginning with `not`; '
+        'Renders therefore takes the parser environment as a parameter). not_binds_tightest for the word `not` '
+        'carries the hypothesis that lex_unary_op takes the operator (nothing name-like glued, or the glued name '
+        'unregistered); not_prefixed_name_is_identifier is the complementary case.',
     ],
     'trusted_base': COMMON_TRUST + [
         'modelled, not verified: Rust std integer/slice comparison operators, i64 bitand, '
@@ -66,7 +74,9 @@ TEXT = {
              'climb_layered (for ANY stream that unfolds into e0 (o1,e1)...(on,en), unbounded n, '
              'lex_more_with_precedence returns exactly the tree obtained by splitting at or, then xor, '
              'then and, with same-operator chains as one flat node) with fuel_suffices, logical_layered, '
-             'not_binds_tightest; parse_render_logical (S, character level: every rendering - any alias per '
+             'not_binds_tightest (+ _spaced, bang_binds_tightest, not_prefixed_name_is_identifier: the word `not` '
+             'glued to the rest of a registered name is that identifier, read at the same nesting level); '
+             'parse_render_logical (S, character level: every rendering - any alias per '
              'operator occurrence, any layout - of every skeleton over GoodAtom atoms whose nesting fits the '
              'budget is read by LogicalExpr::lex_with to exactly the declarative meaning, unbounded size, '
              'induction on the rendering using Unfolds + climb_layered + simpleL_good for the fuel), with '
